@@ -339,6 +339,55 @@ def initState (cfg : Cfg) (rrNext : Nat) (t0 : Nat) (conns : List Conn) : PState
 def trySend (cfg : Cfg) (rrNext t0 : Nat) (conns : List Conn) (fuel : Nat) : Option (Res × PState) :=
   run cfg (t0 + cfg.timeout) fuel (initState cfg rrNext t0 conns)
 
+/-! ## consecutive lookups on one pool, and the retry layer above it
+
+`RetryDnsHandle` (crates/net/src/xfer/retry_dns_handle.rs, what `options.attempts` configures) re-sends
+a failed request through the pool: never after `NoConnections` or a negative response, without
+counting after `Busy`, otherwise while attempts remain.  Every (re)send is a new `try_send`: the
+round-robin counter advances and the servers keep their connections and script positions.
+(Exact only when batches hold one server: requests still in flight when a lookup returns are not
+modelled.) -/
+
+structure Pool where
+  conns : List Conn
+  rrNext : Nat
+  clock : Nat
+  log : List (Nat × Xch)
+  deriving Repr, Inhabited
+
+/-- one `NameServerPool::send` at `p.clock` -/
+def Pool.lookup (cfg : Cfg) (p : Pool) (fuel : Nat) : Option (Res × Pool) :=
+  match trySend cfg p.rrNext p.clock p.conns fuel with
+  | none => none
+  | some (r, st) =>
+    let c := if cfg.ncr > 1 then cfg.ncr else 1
+    some (r, { conns := st.conns, rrNext := if c < cfg.servers.length then p.rrNext + c else p.rrNext,
+               clock := st.clock, log := p.log ++ st.log })
+
+/-- `RetrySendStream::poll_next` with `remaining_attempts = attempts` -/
+def Pool.retry (cfg : Cfg) (fuel : Nat) : Nat → Nat → Pool → Option (Res × Pool)
+  | 0, _, _ => none
+  | sends + 1, remaining, p =>
+    match p.lookup cfg fuel with
+    | none => none
+    | some (.ans i pr, p') => some (.ans i pr, p')
+    | some (.err e, p') =>
+      if remaining = 0 then some (.err e, p')
+      else if e = .noconn || e = .nx || e = .nodata then some (.err e, p')
+      else if e = .busy then Pool.retry cfg fuel sends remaining p'
+      else Pool.retry cfg fuel sends (remaining - 1) p'
+
+/-- `m` lookups one after the other, `gap` ms apart; `attempts = none`: straight through the pool -/
+def Pool.seq (cfg : Cfg) (fuel : Nat) (attempts : Option Nat) (gap : Nat) :
+    Nat → Pool → List (Res × Nat) → Option (List (Res × Nat) × Pool)
+  | 0, p, acc => some (acc.reverse, p)
+  | m + 1, p, acc =>
+    match (match attempts with
+      | none => p.lookup cfg fuel
+      | some a => Pool.retry cfg fuel (a + 2) a p) with
+    | none => none
+    | some (r, p') => Pool.seq cfg fuel attempts gap m { p' with clock := p'.clock + gap } ((r, p'.clock) :: acc)
+
 /-! ## `send`: de-duplication of identical in-flight queries
 
 `active_requests : HashMap<CacheKey, SharedLookup>` for ONE key.  A caller that finds an entry awaits
